@@ -90,3 +90,18 @@ def const_true_false(expr_src: str, value):
     tree = expr_parser.parse_expression(expr_src)
     tree.body = ast.Constant(value=value)
     return tree
+
+
+def pick(x, n):
+    """A CONCRETE int in range(n) equal to the (symbolic) int x, obtained by a comparison chain: one path per value.
+    (`int(x)` keeps a CrossHair int symbolic; using it in formatted text or as a dict key then realises it through the
+    hash with an order of magnitude more paths.)"""
+    for i in range(n - 1):
+        if x == i:
+            return i
+    return n - 1
+
+
+def flag(b):
+    """A concrete bool equal to the (symbolic) bool b."""
+    return True if b else False
